@@ -11,6 +11,7 @@
 //    indices and are turned into bytes here, then compared byte for byte.
 #pragma once
 #include <algorithm>
+#include <array>
 #include <csignal>
 #include <cstdint>
 #include <cstdio>
@@ -163,6 +164,77 @@ private:
   std::vector<std::pair<std::string, std::string>> sets_;
   mutable std::vector<std::pair<char *, size_t>> bufs_;
 };
+
+// ---- byte classes: the concretisation of every "bad byte" class ---------------------------------------
+// A bad byte is drawn UNIFORMLY from all byte values of its class (never from a hand-picked list), and in
+// sweep mode (cases marked "sweep" by the check) the harness enumerates EVERY byte value of the class at
+// every position of the field instead of drawing.  The expected outcome still is the spec's for the class.
+enum ByteClass
+{
+  BC_NONHEX,     // at a hex-digit position: any byte that is neither a hex digit nor the separator
+  BC_NOTSEP,     // at a separator position: any byte but the separator
+  BC_JUNK,       // next to the header: neither white space, nor hex digit, nor '-'
+  BC_PRINTJUNK,  // BC_JUNK and printable (0x21..0x7e)
+  BC_WEIRD       // behind "-" of a higher version: anything but lower-case hex and '-'
+};
+inline bool is_hex(unsigned b)
+{
+  return (b >= '0' && b <= '9') || (b >= 'a' && b <= 'f') || (b >= 'A' && b <= 'F');
+}
+inline bool is_ws(unsigned b)
+{
+  return b == ' ' || (b >= 0x09 && b <= 0x0d);
+}
+inline bool in_class(ByteClass c, unsigned b, int sep)
+{
+  switch (c)
+  {
+    case BC_NONHEX:
+      return !is_hex(b) && int(b) != sep;
+    case BC_NOTSEP:
+      return int(b) != sep;
+    case BC_JUNK:
+      return !is_ws(b) && !is_hex(b) && b != '-';
+    case BC_PRINTJUNK:
+      return b >= 0x21 && b <= 0x7e && !is_hex(b) && b != '-';
+    case BC_WEIRD:
+      return !((b >= '0' && b <= '9') || (b >= 'a' && b <= 'f') || b == '-');
+  }
+  return false;
+}
+struct Sweep
+{
+  bool on       = false;
+  unsigned byte = 0, pos = 0;
+  unsigned used = 0;  // how many bad-byte sites consumed the sweep byte in this concretisation
+};
+inline Sweep &sweep()
+{
+  static Sweep s;
+  return s;
+}
+inline unsigned char bad_byte(Rng &r, ByteClass c, int sep = '-')
+{
+  if (sweep().on)
+  {
+    ++sweep().used;
+    return (unsigned char)sweep().byte;
+  }
+  unsigned b;
+  do
+    b = unsigned(r.next() & 255);
+  while (!in_class(c, b, sep));
+  return (unsigned char)b;
+}
+inline size_t bad_pos(Rng &r, size_t n)
+{
+  return sweep().on ? sweep().pos % n : r.below(uint32_t(n));
+}
+// number of bad bytes to place: exactly one when sweeping
+inline uint32_t bad_count(Rng &r, uint32_t max)
+{
+  return sweep().on ? 1 : 1 + r.below(max);
+}
 
 // ---- abstract id classes -> bytes ------------------------------------------------------------
 inline void fill_random_nonzero(Rng &r, uint8_t *p, size_t n)
@@ -411,5 +483,95 @@ inline std::vector<json> read_cases(const char *path)
     if (!ln.empty())
       v.push_back(json::parse(ln));
   return v;
+}
+// ---- the replay loop shared by the replayers ---------------------------------------------------------------
+// One result line per case.  A case is concretised n times (seeded), or - when it carries "sweep" - once for
+// every byte value of its single bad-byte class at every position of the field ("rot": one position per
+// byte value, rotating with the seed).
+typedef json (*RunFn)(long id, int inst, const json &cs, Rng &r);
+typedef bool (*SiteFn)(const json &cs, ByteClass &cls, unsigned &npos, int &sep, std::string &name);
+inline int replay_cases(const char *path, uint64_t seed, int n, RunFn run_rt, RunFn run_x, SiteFn sweep_site)
+{
+  auto cases = read_cases(path);
+  for (auto &cs : cases)
+  {
+    long id      = cs["id"].get<long>();
+    bool rt      = cs["k"] == "rt";
+    json out     = {{"id", id}, {"v", "ok"}, {"n", n}};
+    int valid = 0, unchanged = 0, devs = 0;
+    // the list of concretisations: n seeded instances, or the sweep of one byte class
+    std::vector<std::array<unsigned, 3>> runs;  // {instance, sweep byte, sweep position}; byte 256 = no sweep
+    if (cs.contains("sweep"))
+    {
+      ByteClass cls;
+      unsigned npos;
+      int sep;
+      std::string name;
+      if (!sweep_site(cs, cls, npos, sep, name))
+      {
+        fprintf(stderr, "harness: sweep case %ld has no single bad-byte site\n", id);
+        return 9;
+      }
+      bool full = cs["sweep"] == "full";
+      unsigned bytes = 0;
+      for (unsigned b = 0; b < 256; ++b)
+      {
+        if (!in_class(cls, b, sep))
+          continue;
+        ++bytes;
+        for (unsigned p = 0; p < npos; ++p)
+          if (full || p == (b + unsigned(seed) + unsigned(id)) % npos)
+            runs.push_back({unsigned(runs.size()), b, p});
+      }
+      out["sweep"] = {{"site", name}, {"bytes", bytes}, {"positions", npos}, {"runs", runs.size()}};
+    }
+    else
+      for (int inst = 0; inst < n; ++inst)
+        runs.push_back({unsigned(inst), 256u, 0u});
+    out["n"] = runs.size();
+    for (auto &run : runs)
+    {
+      int inst      = int(run[0]);
+      sweep()       = Sweep();
+      sweep().on    = run[1] < 256;
+      sweep().byte  = run[1];
+      sweep().pos   = run[2];
+      Rng r(mix(seed, uint64_t(id), uint64_t(inst)));
+      json res = rt ? run_rt(id, inst, cs, r) : run_x(id, inst, cs, r);
+      if (sweep().on && sweep().used != 1)
+      {
+        fprintf(stderr, "harness: sweep byte used %u times in case %ld\n", sweep().used, id);
+        return 9;
+      }
+      if (res.value("kind", "") == "valid")
+        ++valid;
+      if (res.value("kind", "") == "unchanged")
+        ++unchanged;
+      if (!res["ok"].get<bool>())
+      {
+        out["v"]    = "bad";
+        out["inst"] = inst;
+        out["res"]  = res;
+        break;
+      }
+      if (res.value("dev", false))
+      {
+        if (devs++ == 0)
+        {
+          out["v"]   = "dev";
+          out["res"] = res;
+        }
+      }
+      else if (res.contains("concrete") && !out.contains("res"))
+        out["res"] = res;
+    }
+    sweep()          = Sweep();
+    out["valid"]     = valid;
+    out["unchanged"] = unchanged;
+    std::cout << out.dump() << std::endl;
+  }
+  current_case().clear();
+  std::cout << "{\"done\":" << cases.size() << "}" << std::endl;
+  return 0;
 }
 }  // namespace vh
